@@ -222,8 +222,11 @@ func runSchedule(sc *SchedScenario, prefix []int, serialOrder [][2]int, trace bo
 	if startErr != nil {
 		return nil, nil, startErr
 	}
-	if ph.Deadlock || len(ph.Panics) > 0 || ph.Stuck {
-		return nil, nil, fmt.Errorf("setup phase failed: deadlock=%v panics=%v stuck=%v blocked=%v", ph.Deadlock, ph.Panics, ph.Stuck, ph.Blocked)
+	if ph.Stuck {
+		return &SchedOutcome{Stuck: true}, &dfsChooser{}, nil
+	}
+	if ph.Deadlock || len(ph.Panics) > 0 {
+		return nil, nil, fmt.Errorf("setup phase failed: deadlock=%v panics=%v blocked=%v", ph.Deadlock, ph.Panics, ph.Blocked)
 	}
 	for _, c := range in.conns {
 		c.Take()
@@ -325,6 +328,7 @@ type SchedResult struct {
 	Outcomes   map[string]*SchedOutcome // distinct outcomes, one witness each (fewest preemptions)
 	Serial     map[string][][2]int      // outcome key -> a serial order producing it
 	Capped     bool
+	Stuck      bool // a thread blocked natively (construct not owned by the scheduler): scenario abandoned
 	Diverged   string
 	Err        string
 }
@@ -367,11 +371,15 @@ func exploreScenario(sc *SchedScenario) *SchedResult {
 			res.Err = "serial run: " + err.Error()
 			return res
 		}
+		if o.Stuck {
+			res.Stuck = true
+			return res
+		}
 		res.Serial[o.Key()] = so
 	}
 	var explore func(prefix []int)
 	explore = func(prefix []int) {
-		if res.Capped || res.Diverged != "" || res.Err != "" {
+		if res.Capped || res.Stuck || res.Diverged != "" || res.Err != "" {
 			return
 		}
 		if sc.MaxExec > 0 && res.Executions >= sc.MaxExec {
@@ -384,6 +392,10 @@ func exploreScenario(sc *SchedScenario) *SchedResult {
 			return
 		}
 		res.Executions++
+		if o.Stuck {
+			res.Stuck = true
+			return
+		}
 		if ch.diverged != "" {
 			res.Diverged = ch.diverged
 			if dbgDiverge || os.Getenv("VERIF_DBG_DIVERGE") != "" {
